@@ -51,7 +51,8 @@ def run(report, tier, seed, driver, proofs_ok):
             report.violation("correspondence+oracle", what, op={"op": "cond", "block": raw, "ctx": {k: show(v) for k, v in ctx.items()}, "wire": op},
                              impl=io, model=mo, oracle="IamCond.call: true iff every operator holds for every key (C12_true_iff)")
         # conjunction-of-parts oracle on the implementation alone
-        if io.get("result") is not None and nkeys >= 2:
+        collide = len({n.replace(":", "") for n in raw}) < len(raw)  # both spellings of one operator: the later one replaces the earlier
+        if io.get("result") is not None and nkeys >= 2 and not collide:
             parts = []
             for name, keys in tb:
                 for k, v in keys:
